@@ -29,6 +29,9 @@ RULE = ("count matrices over 1..8 states (many-states stream: up to 200) built f
         "a many-states stream (17..200 states, every container x every layout, several components, both renumbering modes, "
         "MSM.fit at threshold 1; compared inside Coq up to 40 states -- the model's closure is a list-based Warshall -- and "
         "judged by the exact Python oracle beyond); "
+        "a narrow-dtype stream (count matrices held as uint8 / int8 / int16 / uint16 / int32, dense and every sparse container, every entry "
+        "legal for the dtype, the heaviest component's total -- often a single row's total -- beyond the dtype's range and chosen so that "
+        "the total reduced modulo the dtype's width falls below a lighter component's; thresholds 0..3 or a third of the dtype's maximum); "
         "TrimMapping alone on injective (original, mapped) pair lists in arbitrary order; "
         "thorough adds every 0/1 digraph on <= 3 states with two weightings and every 0/1 digraph on 4 states; "
         "non-trivial := >= 2 components w.r.t. the threshold and at least one state removed. "
@@ -250,6 +253,96 @@ def _deadend(rng, decides=True, pad=0):
     return C
 
 
+NARROW = {"uint8": (8, False), "int8": (8, True), "int16": (16, True), "uint16": (16, False), "int32": (32, True)}
+
+
+def _wrap(v, dt):
+    """v reduced to the range of the integer dtype dt (two's complement)"""
+    b, sg = NARROW[dt]
+    v %= 1 << b
+    return v - (1 << b) if sg and v >= 1 << (b - 1) else v
+
+
+def _narrow(rng, dt):
+    """Counts legal for the narrow dtype dt (0 <= entry <= its maximum) with a heaviest component whose total count lies
+    beyond the dtype's range, and a lighter competitor whose total is larger than the heavy total reduced to the dtype."""
+    b, sg = NARROW[dt]
+    L = (1 << (b - 1)) - 1 if sg else (1 << b) - 1
+    thr = rng.choice([0, 1, 1, 2, 3, L // 3])
+    lo = max(thr, 1)
+    sh, sl = rng.choice([2, 2, 3, 4]), rng.choice([1, 2, 2, 3])
+    pads = [rng.choice([1, 1, 2]) for _ in range(rng.choice([0, 0, 1, 2]))]
+    n = sh + sl + sum(pads)
+    ids = list(range(n))
+    rng.shuffle(ids)
+    parts, k = [], 0
+    for sz in [sh, sl] + pads:
+        parts.append(ids[k:k + sz])
+        k += sz
+    if rng.random() < 0.5:                                  # competitor before / after the heavy component among the ids
+        parts[0], parts[1] = sorted(parts[0] + parts[1])[:sh], sorted(parts[0] + parts[1])[sh:]
+    elif rng.random() < 0.5:
+        parts[1], parts[0] = sorted(parts[0] + parts[1])[:sl], sorted(parts[0] + parts[1])[sl:]
+    C = [[0] * n for _ in range(n)]
+
+    def ring(comp):
+        """a cycle through the component with entries lo (a self count for a single state); returns the cells to fill up"""
+        cyc = list(comp)
+        rng.shuffle(cyc)
+        edges = [(a, b_) for a, b_ in zip(cyc, cyc[1:] + cyc[:1])] if len(comp) > 1 else [(comp[0], comp[0])]
+        for a, b_ in edges:
+            C[a][b_] = lo
+        other = [(a, b_) for a in comp for b_ in comp if (a, b_) not in edges]
+        rng.shuffle(other)
+        return edges + other[:rng.randrange(len(other) + 1)]
+
+    def fill(comp, where, total):
+        """bring the component's weight (sum of its rows) to `total`; every entry stays <= L and is 0 or >= thr"""
+        rest = total - sum(sum(C[i]) for i in comp)
+        assert rest >= 0
+        while rest > 0:
+            free = [e for e in where if C[e[0]][e[1]] < L and (C[e[0]][e[1]] > 0 or rest >= thr)]
+            if not free:
+                free = [(a, b_) for a in comp for b_ in comp if C[a][b_] < L and (C[a][b_] > 0 or rest >= thr)]
+            if not free:
+                # every occupied cell is full and the rest is below the threshold: open an empty cell with `thr`
+                # and take the difference out of a full one (L >= 2 thr)
+                a, b_ = rng.choice([(a, b_) for a in comp for b_ in comp if C[a][b_] == 0])
+                x, y = rng.choice([(x, y) for x in comp for y in comp if C[x][y] == L])
+                C[a][b_], C[x][y], rest = thr, L - (thr - rest), 0
+                break
+            a, b_ = rng.choice(free)
+            room = L - C[a][b_]
+            add = min(rest, room, max(1, rng.choice([room, room, rest, rest // 2, L // 2])))
+            if C[a][b_] == 0 and add < thr:
+                add = thr
+            C[a][b_] += add
+            rest -= add
+
+    heavy, light = parts[0], parts[1]
+    for comp in parts[2:]:                                   # light padding components, isolated states
+        if len(comp) == 1 and rng.random() < 0.5:
+            continue
+        fill(comp, ring(comp), lo * len(comp) + rng.randrange(3))
+    wh, wl = ring(heavy), ring(light)
+    if rng.random() < 0.4:                                   # a one-way bridge between the competitors
+        a, b_ = (rng.choice(heavy), rng.choice(light)) if rng.random() < 0.5 else (rng.choice(light), rng.choice(heavy))
+        C[a][b_] = lo + rng.randrange(3)
+    floor_h, floor_l = sum(sum(C[i]) for i in heavy), sum(sum(C[i]) for i in light)
+    cap_h, cap_l = len(heavy) ** 2 * L, len(light) ** 2 * L
+    for _ in range(400):
+        T = rng.randint(max(L + 1, floor_h), min(cap_h, 4 * L)) if rng.random() < 0.6 else \
+            max(L + 1, floor_h) + rng.randrange(max(1, L // 4))
+        lo_t, hi_t = max(_wrap(T, dt) + 1, floor_l), min(T - 1, cap_l)
+        if lo_t <= hi_t:
+            break
+    assert lo_t <= hi_t, (dt, thr, heavy, light)
+    t = rng.randint(lo_t, hi_t) if rng.random() < 0.7 else rng.choice([lo_t, hi_t])
+    fill(light, wl, t)
+    fill(heavy, wh, T)
+    return C, thr
+
+
 def _mk(C, thr, ren, cont, extras=True, fit=None):
     return {"C": C, "thr": thr, "renumber": ren, "cont": cont, "extras": extras,
             "fit": fit if fit is not None else False}
@@ -305,6 +398,14 @@ def generate(rng, tier):
     for k in range(6 if tier == "quick" else 40):        # dead ends among many states
         C = _deadend(rng, decides=True, pad=rng.choice([5, 6, 8, 12, 20]))
         heavy.append(_mk(C, 1, rng.random() < 0.5, conts[k % len(conts)], True, fit=True))
+    # narrow-dtype stream: every entry fits the dtype, the heaviest component's total does not
+    for rep in range(2 if tier == "quick" else 16):
+        for cont in conts:
+            for dt in sorted(NARROW):
+                C, thr = _narrow(rng, dt)
+                cs = _mk(C, thr, rng.random() < 0.5, cont, True, fit=False)
+                cs["dtype"] = dt
+                cases.append(cs)
     # TrimMapping on its own: injective (original, mapped) pairs in arbitrary order, and the empty list
     for k in range(40 if tier == "quick" else 400):
         m = rng.randrange(0, 7) if k else 0
@@ -346,6 +447,7 @@ def generate(rng, tier):
 
 
 # ----------------------------------------------------------------------------- implementation
+_DTYPE = ["int64"]  # element type the input container is built with (narrow-dtype stream)
 _SPLIT = [False]   # build COO input with every count split into unit entries (as assigns_to_counts returns it)
 
 
@@ -367,6 +469,9 @@ def _is_split(name, C, split):
 def _container(name, C):
     import scipy.sparse as sp
     a = np.array(C, dtype=np.int64)
+    if _DTYPE[0] != "int64":
+        assert a.size and int(a.min()) >= np.iinfo(_DTYPE[0]).min and int(a.max()) <= np.iinfo(_DTYPE[0]).max
+        a = a.astype(_DTYPE[0])
     if a.ndim != 2:
         a = a.reshape((len(C), 0))
     if name == "dense":
@@ -425,6 +530,7 @@ def run_impl(c):
         return {"main": _run_tm(c)}
     C, thr, ren, cont = c["C"], c["thr"], c["renumber"], c["cont"]
     _SPLIT[0] = bool(c.get("split"))
+    _DTYPE[0] = c.get("dtype", "int64")
     res = {"main": _trim(C, thr, ren, cont)}
     if c["extras"]:
         res["other"] = _trim(C, thr, not ren, cont)
@@ -564,6 +670,8 @@ def oracle(c, r):
         n = len(C)
         if "err" in g or g["to_original"] != [[k, k] for k in range(n)] or g["counts"] != C:
             out.append(("msm-fit-notrim", "MSM(trim=False).fit reports %s" % g))
+    if "dtype" in c:
+        out = [(k, "%s [count matrix %s held as %s %s, threshold %d]" % (m, C, c["dtype"], cont, thr)) for k, m in out]
     return out
 
 
@@ -721,6 +829,20 @@ def tags(c, r):
                 t.append("removed-at-front")
             if any(min(ks) < i < max(ks) for i in removed):
                 t.append("removed-in-middle")
+    if "dtype" in c:
+        dt = c["dtype"]
+        b_, sg = NARROW[dt]
+        L = (1 << (b_ - 1)) - 1 if sg else (1 << b_) - 1
+        t += ["narrow-dtype", "narrow:" + dt]
+        if max(w) > L:
+            t.append("narrow-total-exceeds-dtype")
+        if any(sum(row) > L for row in C):
+            t.append("narrow-row-total-exceeds-dtype")
+        ww = [_wrap(x, dt) for x in w]
+        if len(best) == 1 and ww.index(max(ww)) != best[0]:
+            # totals accumulated in the input's own dtype would elect another component
+            t += ["narrow-wrap-decides", "narrow-wrap-decides:" + dt,
+                  "narrow-wrap-decides-dense" if c["cont"] == "dense" else "narrow-wrap-decides:" + c["cont"]]
     if n > 16:
         t.append("many-states")
         t.append("many-states-in-coq" if n <= COQ_CAP else "many-states-oracle-only")
@@ -762,7 +884,9 @@ ESSENTIAL_TAGS = ["coo-split-entries", "renumber", "in-place", "dense", "sparse"
                   "many-states", "many-states-in-coq", "many-states-oracle-only", "many-states-dense", "many-states-sparse",
                   "many-states-msm-fit", "many-states-several-components",
                   "dead-end-state", "dead-end-decides-msm-fit", "source-only-state", "heaviest-is-source-only-state"] + \
-                 ["in-place-end-removed:" + k for k in SPARSE]
+                 ["in-place-end-removed:" + k for k in SPARSE] + \
+                 ["narrow-wrap-decides:" + k for k in sorted(NARROW)] + ["narrow-wrap-decides-dense"] + \
+                 ["narrow-wrap-decides:" + k for k in SPARSE] + ["narrow-row-total-exceeds-dtype"]
 
 
 def search(rng, tier):
